@@ -12,10 +12,17 @@
                                                       -> ok | V:<node> | I:<cpt>    (Spec.firstDifference)
     rw.renaming || <orig lines> ### <new lines>       -> ok a:b,… | not-a-function <node> | not-injective <n1> <n2> | shape
     rw.retained [componentwise] <old>:<new>… || <orig lines> ### <new lines>  -> nodes a,b,… cpts x,y,…
+    rw.smodel <s> || <line> …                         -> <elt>;…    (Model/RewriteCW.sModelNet at the point s; dummy nodes _d1, _d2 …)
+    rw.noise killed|raw || <line> …                   -> <elt>;…    (noise_model, noise sources killed or kept)
+    rw.switches <t> before|after || <line> …          -> <elt>;…    (replace_switches / replace_switches_before)
+    rw.kill || <line> …                               -> <elt>;…    (kill() of every independent source)
+    rw.expand || <raw line> | <raw line> …            -> raw lines joined by ` | ` (C01's `expandRaw`: opamps)
   Lines are in the restricted grammar `name nodes… [dc|ac|step|s|noise] [val [ic]] [extra…]` with rational values.
 -/
 import Lcapy.Model.CRat
 import Lcapy.Model.Rewrite
+import Lcapy.Model.RewriteCW
+import Lcapy.Model.Netlist
 namespace Lcapy.Driver.C05
 open Lcapy Lcapy.Rewrite
 
@@ -45,7 +52,9 @@ def parseElt (toks : List String) : Except String (Elt CRat) :=
       let nodes := rest.take nn
       let args := rest.drop nn
       let (kw, args) := match args with
-        | k :: r => if (ty = "V" || ty = "I") && keywords.contains k then (k, r) else ("", args)
+        | k :: r => if (ty = "V" || ty = "I") && keywords.contains k then (k, r)
+                    else if ty = "SW" && ["no", "nc", "push", "spdt"].contains k then (k, r)
+                    else if ty = "E" && k = "opamp" then (k, r) else ("", args)
         | [] => ("", [])
       -- F and H carry the controlling source name before the value
       let (pre, args) := if ty = "F" || ty = "H" then (args.take 1, args.drop 1) else ([], args)
@@ -183,6 +192,39 @@ def handle (toks : List String) : Option String :=
             | .error e, _ => "bad-net:" ++ e
             | _, .error e => "bad-net:" ++ e
           | _ => "bad-request"
+        else if cmd = "rw.smodel" then
+          match head.head? >>= parseCRat, parseNet (splitOnTok "|" body) with
+          | some s, .ok net => netStr (sModelNet s net)
+          | none, _ => "bad-request"
+          | _, .error e => "bad-net:" ++ e
+        else if cmd = "rw.noise" then
+          match parseNet (splitOnTok "|" body) with
+          | .error e => "bad-net:" ++ e
+          | .ok net => netStr (if head = ["killed"] then noiseModelKilled net else noiseModel net)
+        else if cmd = "rw.kill" then
+          match parseNet (splitOnTok "|" body) with
+          | .error e => "bad-net:" ++ e
+          | .ok net => netStr (killSources net)
+        else if cmd = "rw.switches" then
+          match head with
+          | [t, when_] =>
+            match parseRat t, parseNet (splitOnTok "|" body) with
+            | some t, .ok net =>
+              -- times are plain rationals here (an undefined value never occurs in a switch line)
+              let netR : Net Rat := net.map (fun e => { name := e.name, ty := e.ty, nodes := e.nodes, kw := e.kw,
+                                                         val := e.val.bind (·.v), ic := e.ic.bind (·.v), extra := e.extra })
+              let out := replaceSwitches t (when_ = "before") netR
+              ";".intercalate (out.map (fun e => e.name ++ "|" ++ ",".intercalate e.nodes ++ "|" ++ (if e.kw = "" then "-" else e.kw) ++ "|" ++
+                (match e.val with | some v => ratToStr v | none => "-") ++ "|" ++ (match e.ic with | some v => ratToStr v | none => "-") ++ "|" ++ (if e.extra = [] then "-" else ",".intercalate e.extra)))
+            | none, _ => "bad-request"
+            | _, .error e => "bad-net:" ++ e
+          | _ => "bad-request"
+        else if cmd = "rw.expand" then
+          match (splitOnTok "|" body).filter (· ≠ []) |>.mapM (fun l => Lcapy.Netlist.parseLine (" ".intercalate l)) with
+          | .error e => "bad-net:" ++ e
+          | .ok raw =>
+            " | ".intercalate ((raw.flatMap Lcapy.Netlist.expandRaw).map (fun c =>
+              " ".intercalate ([c.name] ++ (if c.ty = "Eopamp" then c.nodes.take 2 ++ ["opamp"] ++ c.nodes.drop 2 else c.nodes) ++ c.args)))
         else "unknown-rw"
       | _ => "bad-request"
   | _ => none
